@@ -151,14 +151,15 @@ class Report:
                 with open(rp, "w") as fh:
                     json.dump(f.to_json(), fh, indent=1)
                 print("   %s at %s in %s: %s" % (f.rule, f.where, f.function, f.message))
-                if not self.unknowns:
-                    print("VIOLATION property=%s replay=%s" % (self.prop, rp))
-        if self.unknowns:
-            for u in self.unknowns:
-                print("ANALYSIS-BROKEN: %s" % u)
-            return 2
+                print("VIOLATION property=%s replay=%s" % (self.prop, rp))
+        # obligations that could not be evaluated are always shown; they decide the exit code only when no rule found a concrete violation
+        # (a violation is reported by a rule that DID evaluate, at a named construct; it stands whether or not another obligation was undecidable)
+        for u in self.unknowns:
+            print("ANALYSIS-BROKEN: %s" % u)
         if real:
             return 1
+        if self.unknowns:
+            return 2
         return 0
 
 
